@@ -254,23 +254,26 @@ Section WalkerP.
   Qed.
   Lemma walk_arithcmd c ss fs ks : let t := T $"arith-cmd" ss fs ks in
     walk c t = combine (flat_map (fun e => r_exp (ev e) c) (children "expression" t) ++
-                        (if unclosed_arith (attr_d "raw_content" t) then [Ask] else []) ++ redirs_of c t).
+                        text_guards true true (attr_d "raw_content" t)
+                          (match child "expression" t with Some e => e | None => T [] [] [] [] end) ++ redirs_of c t).
   Proof.
     intro t. subst t. open_node.
     rewrite (redirs_kr c $"arith-cmd" ss fs), (lbl_children "expression" $"arith-cmd" ss fs ks).
-    rewrite flat_map_concat_map, map_map, <- flat_map_concat_map. reflexivity.
+    rewrite flat_map_concat_map, map_map, <- flat_map_concat_map.
+    unfold one, child. rewrite (lbl_children "expression" $"arith-cmd" ss fs ks).
+    destruct (children "expression" (T $"arith-cmd" ss fs ks)); reflexivity.
   Qed.
 
 
   (* ---- the other walker functions, as functions of the node ---- *)
   Lemma wp_unfold c b k ss fs ks : let t := T k ss fs ks in
     r_wp (ev t) b c =
-    (if nonempty (children "parts" t) && unclosed_arith (attr_d "value" t) then [Ask] else []) ++
+    text_guards (nonempty (children "parts" t)) b (attr_d "value" t) t ++
     flat_map (fun p => r_exp (ev p) c) (children "parts" t) ++
     (if b && negb (nonempty (children "parts" t)) then rawscan c (attr_d "value" t) else []).
   Proof.
     intro t. subst t. rewrite ev_unfold. unfold build. cbn [r_wp].
-    rewrite (lbl_children "parts" k ss fs ks).
+    rewrite (lbl_children "parts" k ss fs ks), (self_kr k ss fs ks).
     rewrite flat_map_concat_map, map_map, <- flat_map_concat_map. cbn [snd].
     destruct (children "parts" (T k ss fs ks)); reflexivity.
   Qed.
